@@ -18,20 +18,17 @@ c.requires("path == '' or path.startswith('/')", 'url-path')
 c.note('only string-valued mappings are modelled (dict-valued entries with an explicit '
        'content_type are not)')
 c.loop(0, invariants=[
-    ('suffix-moved', 'old_path == path + extra_path'),
+    ('suffix-moved', 'path0 == path + extra_path'),
     ('still-a-url-path', "path == '' or path.startswith('/')"),
     ('extra-is-a-path', "extra_path == '' or extra_path.startswith('/')"),
     ('nothing-found-yet', 'f is None')],
     modifies=['path', 'extra_path', 'last', 'f'])
-c.ghost_before('if path in static_files: f = static_files[path] else:', 'old_path', 'path')
-c.ghost_before("if f['filename'].endswith('/') and extra_path.startswith('/'):", 'root0',
-               "f['filename']")
-c.ghost_before("if f['filename'].endswith('/') and extra_path.startswith('/'):", 'extra0',
-               'extra_path')
-c.check_before("if 'content_type' not in f:", 'served-file-is-root-plus-request-suffix',
-               "old_path.endswith(extra0) and (f['filename'].startswith(root0 + extra0) or "
-               "(root0.endswith('/') and extra0.startswith('/') and "
-               "f['filename'].startswith(root0 + extra0[1:])))", props=['C20'])
+c.ghost_entry('path0', 'path')
+c.ensures('served-file-is-root-plus-request-suffix',
+          "implies(isinstance(result, dict), exists_split(lambda p, e: "
+          "served_from(static_files, p, e, result['filename']) or "
+          "served_from(static_files, p + '/', e, result['filename']), path))",
+          props=['C20'], witnesses=[('path', 'extra_path'), ('path', "'/' + extra_path")])
 c.ensures('empty-mapping-is-falsy', "implies(isinstance(result, str), result == '')")
 c.ensures('request-with-dotdot-is-never-served', "implies(has_dotdot(path), result is None)",
           props=['C20'])
